@@ -67,7 +67,7 @@ func uniformBytesFor(r *gen.Rng, u *big.Int) []byte {
 
 func runC15(r *mon.Run) {
 	for _, c := range []string{"c15:u=0", "c15:u=1", "c15:u=p-1", "c15:u^2=1/11", "c15:gx1-square", "c15:gx1-nonsquare", "c15:sgn0(u)=0", "c15:sgn0(u)=1",
-		"c15:dstlen=1", "c15:dstlen=254", "c15:dstlen=255", "c15:dstlen=256", "c15:dstlen=257", "c15:dstlen>=1000", "c15:dst-empty", "c15:msglen=0", "c15:RO", "c15:NU"} {
+		"c15:dstlen=1", "c15:dstlen=254", "c15:dstlen=255", "c15:dstlen=256", "c15:dstlen=257", "c15:dstlen>=1000", "c15:dst-empty", "c15:msglen=0", "c15:RO", "c15:NU", "c15:wide-reduction-resonant"} {
 		r.Require(c)
 	}
 	classifyU := func(w *mon.W, u *big.Int) {
@@ -91,9 +91,19 @@ func runC15(r *mon.Run) {
 	r.Each("c15/uniform", r.N(6000, 300000), func(w *mon.W, i int) {
 		rng := w.Rng
 		u, cl := uValue(rng)
+		src := uniformBytesFor(rng, u)
+		if i%5 == 4 {
+			// strings whose 64-bit words resonate with the reduction constant 2^256 mod p
+			// (partial products of the wide reduction that carry where random words never do)
+			l := 48
+			if rng.Chance(1, 3) {
+				l = 32 + rng.Intn(33)
+			}
+			src = rng.ResonantWide(l, 0x1000003d1)
+			u, cl = oracle.Mod(oracle.FromBytes(src), bigP), "wide-reduction-resonant"
+		}
 		w.Class("c15:" + cl)
 		classifyU(w, u)
-		src := uniformBytesFor(rng, u)
 		keep := append([]byte{}, src...)
 		want := oracle.MapToCurve(u)
 		w.Case(true, []byte("uniform"), src)
